@@ -44,6 +44,7 @@ func VerifC09Foreign() {
 	}
 	w := uSetup(s, &undo.BranchUndoLog{Xid: xid, BranchID: uint64(branchID), Logs: []undo.SQLUndoLog{log}}, xid, branchID)
 	w.addUndoLog()
+	w.d.scanKind = vrt.Choice("column.scan.kind", 3)
 
 	// the row as it is now: any foreign modification since the local commit
 	curPresent := vrt.Bool("current.present")
